@@ -29,7 +29,7 @@ COMPONENTS = {'real': ['ikesacontroller.py (dispatch_message, process_expire, ma
 ASSUMPTIONS = ['which IkeSa object received a datagram is observed by a call-through wrapper on IkeSa.process_message',
                'table contents are read from the daemon and compared with the status query (public channel) each time one is issued']
 EXPECT_REACH = ['routed', 'unknown_spi', 'init_request_new_sa', 'status_queries', 'multi_sa_table', 'rekeyed_once',
-                'expire_routed', 'expire_unknown', 'forge.swap', 'forge.unknown', 'forge.zero', 'dup_rekey_or_delete']
+                'expire_routed', 'expire_unknown', 'forge.swap', 'forge.unknown', 'forge.zero', 'forge.init_odd', 'dup_rekey_or_delete']
 
 
 class RouteProbe:
@@ -105,6 +105,10 @@ class TableOracle:
             return self.viol('ike_sa_listed_twice', {'trigger': trig}, f'{N} table lists {dup} more than once after {trig}')
         for sa in tab:
             st = sa.state.name
+            if st == 'INITIAL':
+                return self.viol('phantom_initial_ike_sa', {'role': 'initiator' if sa.is_initiator else 'responder'},
+                                 f'{N} table holds IKE_SA {sa.my_spi.hex()} in state INITIAL after {self._trigger(cur, cause)}: '
+                                 f'it never processed a message, nothing will ever remove it')
             if st == 'DELETED':
                 return self.viol('ended_ike_sa_still_in_table', {'trigger': self._trigger(cur, cause)},
                                  f'{N} keeps IKE_SA {sa.my_spi.hex()} in state DELETED in its table')
@@ -254,7 +258,7 @@ def generate(seed, tier):
         ops.append({'t': round(r.uniform(1.0, T), 3), 'op': 'call', 'name': 'status', 'node': r.choice(names)})
     for _ in range(r.randint(2, 10)):
         ops.append({'t': round(r.uniform(1.0, T), 3), 'op': 'call', 'name': 'spiforge', 'node': r.choice(names),
-                    'kind': r.choice(['swap', 'unknown', 'zero', 'flagflip', 'one_known', 'replay_dead']),
+                    'kind': r.choice(['swap', 'unknown', 'zero', 'flagflip', 'one_known', 'replay_dead', 'init_odd']),
                     'pick': r.randrange(1000), 'seed': r.randrange(2 ** 31)})
     for _ in range(r.randint(0, 4)):
         ops.append({'t': round(r.uniform(1.0, T), 3), 'op': 'call', 'name': 'kexpire', 'node': r.choice(names),
@@ -300,6 +304,21 @@ def run(scenario):
                 if rr.random() < 0.5:
                     b[0:8] = bytes(rr.getrandbits(8) for _ in range(8))
                 else:
+                    b[8:16] = bytes(rr.getrandbits(8) for _ in range(8))
+            elif kind == 'init_odd':
+                # an IKE_SA_INIT request the responder must refuse without keeping anything: odd id / flags / SPIr
+                inits = [x for x in wire.sent if x['h'] is not None and x['h']['exch'] == 34 and not x['h']['R'] and x['dst'] in node.udp]
+                if not inits:
+                    return
+                rec = inits[-1 - (op['pick'] % min(len(inits), 4))]
+                b = bytearray(rec['data'])
+                b[0:8] = bytes(rr.getrandbits(8) for _ in range(8))
+                what = rr.choice(['id', 'noI', 'spir', 'id+noI'])
+                if 'id' in what:
+                    b[20:24] = struct.pack('>L', rr.choice([1, 2, 7, 0xFFFFFFFF]))
+                if 'noI' in what:
+                    b[19] &= ~0x08
+                if what == 'spir':
                     b[8:16] = bytes(rr.getrandbits(8) for _ in range(8))
             elif kind == 'replay_dead':
                 live = {sa.my_spi for sa in node.ike_sas()}
